@@ -39,7 +39,9 @@ def series_stream(rng, thorough, streams, viol, samples):
                           "tunit": rng.choice(U.TIME), "scale": scale, "tmax": float(10 ** rng.uniform(0, 6)).hex(), "npoints": npnt,
                           "explicit": ([float(x).hex() for x in sorted(rng.uniform(0, 1e4) for _ in range(rng.randint(1, 4)))] if rng.random() < 0.2 else None),
                           "plot": True, "display": "all" if rng.random() < 0.6 else rng.sample(chosen, len(chosen)), "order": rng.choice(["dataset", "alphabetical"]),
-                          "yscale": rng.choice(["linear", "log"]), "ymin": float(0.0).hex(), "ymax": None,
+                          "yscale": rng.choice(["linear", "log"]),
+                          "ymin": float(0.0 if rng.random() < 0.5 else 10 ** rng.uniform(-6, 12)).hex(),
+                          "ymax": (None if rng.random() < 0.6 else float(10 ** rng.uniform(0, 25)).hex()),
                           "xmin": float(0.0 if rng.random() < 0.7 else rng.uniform(0.5, 2.0)).hex()})
     # the same requests on objects that already produced a series / plot and were then changed in place
     for c in cases:
@@ -69,6 +71,8 @@ def series_stream(rng, thorough, streams, viol, samples):
         if "err" in r:
             if "ZeroDivision" in r["err"] or "divide" in r["err"]:
                 continue
+            if c["kind"].endswith("_frac") and "NaN or Inf" in r["err"]:
+                continue      # fractions of an inventory whose total has decayed to zero are undefined (0/0): outside the property
             bad.append((c, "series / plot raised " + r["err"])); continue
         # one column per nuclide of the decayed inventory, one row per time
         if r["cols"] != list(r["ref"]) or any(len(v) != len(r["times"]) for v in r["data"].values()):
@@ -125,8 +129,9 @@ def series_stream(rng, thorough, streams, viol, samples):
             ys = [float.fromhex(v) for row in p["ydata"] for v in row]
             lim = [float.fromhex(v) for v in p["ylimits"]]
             if ys and all(math.isfinite(y) for y in ys):
-                exp_hi = 1.05 * max(ys)
-                exp_lo = 0.95 * min(ys) if c["yscale"] == "log" else 0.0
+                ymin = float.fromhex(c["ymin"])
+                exp_hi = float.fromhex(c["ymax"]) if c.get("ymax") else 1.05 * max(ys)
+                exp_lo = 0.95 * min(ys) if (c["yscale"] == "log" and ymin == 0.0) else ymin
                 if lim[1] != exp_hi or lim[0] != exp_lo:
                     bad.append((c, f"y-limits {lim} do not span the data (expected [{exp_lo!r}, {exp_hi!r}])"))
             xmin = float.fromhex(c["xmin"])
